@@ -106,7 +106,7 @@ theorem processHead_gap (env : Env) (m : Msg) (c : Conn) (n : Int) (j : Journal)
   unfold processHead
   wp_simp
   simp only [hs6, hs6', hs7, hA, h5, hv, hpv, beq_iff_eq, bne_iff_ne, ne_eq, not_false_eq_true, not_true_eq_false,
-    true_implies, false_implies, and_true, true_and, Bool.and_eq_true, and_false, false_and, implies_true,
+    true_implies, false_implies, and_true, true_and, Bool.and_eq_true, and_false,
     Option.some.injEq, forall_eq', reduceCtorEq, hs3]
   refine ⟨fun hm => ?_, fun hm => ?_⟩
   · refine Holds.of_spec (processSeqreset_gapfill_off m c n hm (h4 hm) hs (by omega)) ?_ ?_
